@@ -12,7 +12,7 @@ from vlib import Report, run_tlc, tlc_must_pass, extract_lines, write_ndjson, re
 
 PID = "C14"
 FRAGS = {"quick": [("grow", 3), ("metalim", 5), ("zoo", 2), ("do", 2)],
-         "thorough": [("grow", 4), ("metalim", 7), ("zoo", 3), ("do", 3), ("zoo2", 4), ("mix", 3), ("def", 4)]}
+         "thorough": [("grow", 4), ("metalim", 6), ("zoo", 3), ("do", 3), ("zoo2", 4), ("mix", 3), ("def", 4)]}
 RANDOM = {"quick": (1500, 30), "thorough": (20000, 40)}
 CFG = """SPECIFICATION Spec
 CONSTANTS
